@@ -36,7 +36,7 @@ pub struct Ufo {
     pub layers: Vec<LayerU>,
     pub data: Vec<String>,
     pub images: Vec<String>,
-    pub anomaly: u8, // 0 none; 1 duplicate layer name; 2 duplicate layer directory; 3 reserved name; 4 nested glif path; 5 two glyphs one file
+    pub anomaly: u8, // 0 none; 1 duplicate layer name; 2 duplicate layer directory; 3 reserved name; 4 nested glif path; 5 two glyphs one file; 6 layer dirs differing by case; 7 Glyphs + glyphs; 8 glif files differing by case
     pub data_is_file: bool,   // `data` is a plain file (listing fails when requested)
     pub images_subdir: bool,  // a directory inside images (refused when requested)
 }
@@ -113,7 +113,7 @@ pub fn gen_ufo(r: &mut Rng, valid_only: bool) -> Ufo {
     }
     if !valid_only && r.chance(1, 3) {
         // entries the loader must refuse, in its order of checks
-        u.anomaly = 1 + r.below(5) as u8;
+        u.anomaly = 1 + r.below(8) as u8;
         match u.anomaly {
             1 => {
                 let n = u.layers[0].name.clone();
@@ -135,6 +135,20 @@ pub fn gen_ufo(r: &mut Rng, valid_only: bool) -> Ufo {
             4 => {
                 let k = r.below(u.layers.len() as u64) as usize;
                 u.layers[k].glyphs.push(("zz".into(), "sub/zz.glif".into(), next()));
+            }
+            6 => {
+                for d in ["glyphs.C_ase", "glyphs.c_ASE"] {
+                    u.layers.push(LayerU { name: format!("case {}", d), dir: d.into(), written: d.into(), glyphs: vec![], info: 0 });
+                }
+            }
+            7 => {
+                u.layers.push(LayerU { name: "shouting".into(), dir: "Glyphs".into(), written: "Glyphs".into(), glyphs: vec![], info: 0 });
+            }
+            8 => {
+                let k = r.below(u.layers.len() as u64) as usize;
+                u.layers[k].glyphs.push(("Q".into(), "Q_.glif".into(), next()));
+                u.layers[k].glyphs.push(("q".into(), "q_.GLIF".into(), next()));
+                u.layers[k].glyphs.push(("q2".into(), "Q_.GLIF".into(), next()));
             }
             _ => {
                 let k = r.below(u.layers.len() as u64) as usize;
@@ -218,7 +232,10 @@ pub fn files(u: &Ufo) -> Vec<(String, Option<(Vec<u8>, String)>)> {
         let mut f = |p: String, b: String, g: String| v.push((p, Some((b.into_bytes(), g))));
         let mut c = String::from("<dict>\n");
         let mut cg = vec![];
-        for (gn, gf, _) in &l.glyphs {
+        // contents.plist is read into a map ordered by glyph name
+        let mut by_name = l.glyphs.clone();
+        by_name.sort();
+        for (gn, gf, _) in &by_name {
             let _ = write!(c, "<key>{}</key><string>{}</string>\n", gn, gf);
             cg.push(format!("({},{})", gq(gn), grel_text(gf)));
         }
